@@ -10,6 +10,8 @@ var chainPkgs = map[string]string{
 	"internal/verifgen/ex.ample-pkg/v2":              "harness/gen/chain",
 	"internal/verifgen/deep/er/path.with.dots/chain": "harness/gen/chain",
 	"internal/verifgen/plain":                        "harness/gen/chain",
+	// a dot in the last path element: symbol names spell it %2e
+	"internal/verifgen/yaml.v3": "harness/gen/chain",
 }
 
 func props() map[string]Prop {
